@@ -49,6 +49,9 @@ func NewSparseConstFloat64Vector(indices []int, values []float64, n int) SparseC
   r.indices = indices[0:0]
   r.values = make([]float64, 0, len(values))
   for i, k := range indices {
+    if k < 0 {
+      panic("negative index")
+    }
     if k >= n {
       panic("index larger than vector dimension")
     }
